@@ -534,6 +534,9 @@ func c07(c *core.Ctx) {
 		rFO.Check(len(fields) >= 10, pkgSwamp+":index-fields", build.Decl.Pos(), "index fields bound at buildBeacon call sites", "fewer than 10 index fields could be bound to a type and direction")
 	}
 
+	rLV := c.Rule("C07.liveinsert", "a record is inserted into an ordered index of the swamp only (a) on the save path - by the function that publishes records to the key index, whose caller holds the record's guard - or (b) inside a guard region on that record after the key index was looked up again: an insertion made elsewhere can put back a record that was deleted in the meantime, and index reads then list a record that no longer exists", 6)
+	liveInsertRule(c, rLV)
+
 	rLI := c.Rule("C07.lazyinit", "a beacon method that marks the index initialized as a side effect is called on a lazily built index field (or a Beacon parameter) only after buildBeacon of that index in the same function or under an IsInitialized() guard on the same expression", 20)
 	lazyInitRule(c, rLI)
 
@@ -589,6 +592,47 @@ func lazyInitRule(c *core.Ctx, r *core.Rule) {
 		})
 	}
 	beaconT := p.Named(pkgBeacon, "Beacon")
+	// helpers: methods of the swamp that build a lazily built index on every path to their exit
+	// (directly or through another such helper); a call to one counts like the buildBeacon call it makes
+	builders := map[*core.Func]map[*types.Var]bool{}
+	for round := 0; round < 2; round++ {
+		for _, g := range p.FuncsIn(pkgSwamp) {
+			if g.Decl.Body == nil || g == build || g.Decl.Recv == nil {
+				continue
+			}
+			ginfo := g.Info()
+			var gfl *core.Flow
+			core.Calls(g.Decl.Body, false, func(bc *ast.CallExpr) {
+				var fields []*types.Var
+				if core.IsWsCallTo(ginfo, bc, build.Key) {
+					for _, a := range bc.Args {
+						if fv := core.FieldOf(ginfo, a); fv != nil && lazy[fv] {
+							fields = append(fields, fv)
+						}
+					}
+				} else if h := p.ByObj[core.Callee(ginfo, bc)]; h != nil && h != g {
+					for fv := range builders[h] {
+						fields = append(fields, fv)
+					}
+				}
+				if len(fields) == 0 {
+					return
+				}
+				if gfl == nil {
+					gfl = core.NewFlow(p, ginfo, g.Decl.Body)
+				}
+				if gfl.ExitWithout(gfl.Entry(), nil, false, core.ContainsNode(bc)) {
+					return
+				}
+				if builders[g] == nil {
+					builders[g] = map[*types.Var]bool{}
+				}
+				for _, fv := range fields {
+					builders[g][fv] = true
+				}
+			})
+		}
+	}
 	n := 0
 	for _, f := range p.FuncsIn(pkgSwamp) {
 		if f.Decl.Body == nil || f == build {
@@ -640,6 +684,11 @@ func lazyInitRule(c *core.Ctx, r *core.Rule) {
 				built := false
 				core.Calls(body, false, func(bc *ast.CallExpr) {
 					if !core.IsWsCallTo(info, bc, build.Key) {
+						if h := p.ByObj[core.Callee(info, bc)]; h != nil && fv != nil && builders[h][fv] {
+							if lb, okb := fl.Locate(bc); okb && fl.Dominates(lb, l) {
+								built = true
+							}
+						}
 						return
 					}
 					for _, a := range bc.Args {
@@ -1049,4 +1098,196 @@ func windowRule(c *core.Ctx, rW *core.Rule) {
 			}
 		}
 	}
+}
+
+// liveInsertRule (C07.liveinsert, shared with C11.noresurrect): insertions into the swamp's ordered
+// indexes outside the save path are guarded and re-validated against the key index.
+func liveInsertRule(c *core.Ctx, r *core.Rule) {
+	p := c.P
+	_, swSt := p.StructOf(pkgSwamp, "swamp")
+	keyIdx := core.StructFields(swSt)["beaconKey"]
+	beaconT := p.Named(pkgBeacon, "Beacon")
+	if keyIdx == nil || beaconT == nil {
+		r.Bad(pkgSwamp+".swamp:indexes", token.NoPos, "cannot identify the key index / the Beacon type (rule needs review)")
+		return
+	}
+	// the ordered indexes: Beacon fields of the swamp that are handed to the lazy index builder
+	idxFields := map[*types.Var]bool{}
+	if build := p.FnOpt(pkgSwamp + ".swamp.buildBeacon"); build != nil {
+		for _, f := range p.FuncsIn(pkgSwamp) {
+			if f.Decl.Body == nil {
+				continue
+			}
+			core.Calls(f.Decl.Body, true, func(call *ast.CallExpr) {
+				if core.IsWsCallTo(f.Info(), call, build.Key) {
+					for _, a := range call.Args {
+						if fld := core.FieldOf(f.Info(), a); fld != nil && fld != keyIdx && types.Identical(fld.Type(), beaconT) {
+							idxFields[fld] = true
+						}
+					}
+				}
+			})
+		}
+	}
+	if len(idxFields) == 0 {
+		r.Bad(pkgSwamp+".swamp:indexes", token.NoPos, "no lazily built index field found (rule needs review)")
+		return
+	}
+	publisher := map[*core.Func]bool{}
+	for _, f := range p.FuncsIn(pkgSwamp) {
+		if f.Decl.Body == nil {
+			continue
+		}
+		core.Calls(f.Decl.Body, false, func(call *ast.CallExpr) {
+			if fo := core.Callee(f.Info(), call); fo != nil && fo.Name() == "Add" && core.FieldOf(f.Info(), core.RecvExpr(call)) == keyIdx {
+				publisher[f] = true
+			}
+		})
+	}
+	isIdxAdd := func(info *types.Info, call *ast.CallExpr) bool {
+		fo := core.Callee(info, call)
+		if fo == nil || fo.Name() != "Add" || len(call.Args) != 1 {
+			return false
+		}
+		fld := core.FieldOf(info, core.RecvExpr(call))
+		return fld != nil && idxFields[fld]
+	}
+	funcs := p.FuncsIn(pkgSwamp)
+	// helpers: insert one of their own parameters (directly or through another helper)
+	helperParam := map[*core.Func]int{}
+	isParam := func(f *core.Func, info *types.Info, e ast.Expr) (int, bool) {
+		o := core.ObjOf(info, e)
+		sig := f.Obj.Type().(*types.Signature)
+		for i := 0; i < sig.Params().Len(); i++ {
+			if sig.Params().At(i) == o {
+				return i, true
+			}
+		}
+		return 0, false
+	}
+	for changed := true; changed; {
+		changed = false
+		for _, f := range funcs {
+			if f.Decl.Body == nil {
+				continue
+			}
+			if _, done := helperParam[f]; done || publisher[f] {
+				continue
+			}
+			info := f.Info()
+			core.Calls(f.Decl.Body, true, func(call *ast.CallExpr) {
+				var arg ast.Expr
+				if isIdxAdd(info, call) {
+					arg = call.Args[0]
+				} else if h := p.ByObj[core.Callee(info, call)]; h != nil {
+					if pi, ok := helperParam[h]; ok && pi < len(call.Args) {
+						arg = call.Args[pi]
+					}
+				}
+				if arg == nil {
+					return
+				}
+				if pi, ok := isParam(f, info, arg); ok {
+					if _, done := helperParam[f]; !done {
+						helperParam[f] = pi
+						changed = true
+					}
+				}
+			})
+		}
+	}
+	n := 0
+	for _, f := range funcs {
+		if f.Decl.Body == nil {
+			continue
+		}
+		if _, isHelper := helperParam[f]; isHelper {
+			continue // checked at its call sites
+		}
+		info := f.Info()
+		publishes := false
+		core.Calls(f.Decl.Body, false, func(call *ast.CallExpr) {
+			if fo := core.Callee(info, call); fo != nil && fo.Name() == "Add" && core.FieldOf(info, core.RecvExpr(call)) == keyIdx {
+				publishes = true
+			}
+		})
+		for _, body := range core.Bodies(f.Decl) {
+			var fl *core.Flow
+			core.Calls(body, false, func(call *ast.CallExpr) {
+				var arg ast.Expr
+				what := ""
+				if isIdxAdd(info, call) {
+					arg, what = call.Args[0], core.ExprStr(call.Fun)
+				} else if h := p.ByObj[core.Callee(info, call)]; h != nil {
+					if pi, ok := helperParam[h]; ok && pi < len(call.Args) {
+						arg, what = call.Args[pi], h.Obj.Name()
+					}
+				}
+				if arg == nil {
+					return
+				}
+				n++
+				c.Touch(f)
+				construct := f.Key + ":" + what + "(" + core.ExprStr(arg) + ")"
+				if publishes && body == f.Decl.Body {
+					r.Ok(construct, call.Pos(), "save path: the function that publishes the record to the key index")
+					return
+				}
+				if fl == nil {
+					fl = core.NewFlow(p, info, body)
+				}
+				loc, ok := fl.Locate(call)
+				rec := core.ObjOf(info, arg)
+				guarded, checked := false, false
+				if ok && rec != nil {
+					core.Calls(body, false, func(g *ast.CallExpr) {
+						if fo := core.Callee(info, g); fo != nil && fo.Name() == "StartTreasureGuard" && core.ObjOf(info, core.RecvExpr(g)) == rec {
+							if lg, ok2 := fl.Locate(g); ok2 && fl.Dominates(lg, loc) {
+								// not released in between: no release of this record reaches the insertion without passing the acquisition again
+								rel := false
+								core.Calls(body, false, func(x *ast.CallExpr) {
+									fo2 := core.Callee(info, x)
+									if fo2 == nil || fo2.Name() != "ReleaseTreasureGuard" || core.ObjOf(info, core.RecvExpr(x)) != rec || underDefer(body, x) {
+										return
+									}
+									if lx, okx := fl.Locate(x); okx {
+										if reach, _ := fl.CanReach(lx, nil, core.ContainsNode(g), core.ContainsNode(call)); reach {
+											rel = true
+										}
+									}
+								})
+								if !rel {
+									guarded = true
+								}
+								for _, ft := range expandFacts(info, body, fl.FactsAt(loc)) {
+									ast.Inspect(ft.Expr, func(y ast.Node) bool {
+										if k, isCall := y.(*ast.CallExpr); isCall {
+											if fo3 := core.Callee(info, k); fo3 != nil && fo3.Name() == "Get" && core.FieldOf(info, core.RecvExpr(k)) == keyIdx && k.Pos() > g.Pos() {
+												checked = true
+											}
+										}
+										return true
+									})
+								}
+							}
+						}
+					})
+				}
+				r.Check(guarded && checked, construct, call.Pos(), "inside a guard region on the record, after the key index was looked up again",
+					"a record is put into an ordered index here outside the save path without holding its guard and re-checking the key index (guarded="+b2s(guarded)+" key-index-rechecked="+b2s(checked)+"): a record that was deleted in the meantime comes back into the index - ordered reads list it, an expired-shift or expired-patch hands it out and a patch brings it back to life")
+			})
+		}
+	}
+	if n == 0 {
+		r.Bad(pkgSwamp+":index-insertions", token.NoPos, "no insertion into an ordered index found")
+	}
+}
+
+func underDefer(body ast.Node, call *ast.CallExpr) bool {
+	for _, n := range core.PathTo(body, call) {
+		if _, ok := n.(*ast.DeferStmt); ok {
+			return true
+		}
+	}
+	return false
 }
